@@ -181,7 +181,7 @@ func buildInlinedView(repoDir, goarch string, orig *Program) (*Program, []string
 					continue
 				}
 				res, err := inline.Inline(&inline.Caller{Fset: p.Fset, Types: pk.Types, Info: pk.TypesInfo, File: file, Call: call, Content: content}, callee, &inline.Options{})
-				if err != nil || res.Literalized {
+				if err != nil {
 					failed[k] = true
 					continue
 				}
@@ -240,6 +240,26 @@ func buildInlinedView(repoDir, goarch string, orig *Program) (*Program, []string
 				}
 			}
 			overlay[fname] = nb
+		}
+	}
+	// turn the immediately-invoked literals the inliner fell back to into straight-line code
+	plain := map[string][]byte{}
+	counter := 0
+	nDelit := 0
+	for name, b := range overlay {
+		plain[name] = b
+		nb, n := deliteralize(name, b, &counter)
+		if n > 0 {
+			overlay[name] = nb
+			nDelit += n
+		}
+	}
+	if nDelit > 0 {
+		if _, err := loadSyntaxOnly(repoDir, goarch, overlay); err != nil {
+			if os.Getenv("VERIF_DEBUG_INLINE") != "" {
+				fmt.Printf("NOTE de-literalised view does not type-check (%v); keeping the function literals\n", err)
+			}
+			overlay = plain
 		}
 	}
 	if d := os.Getenv("VERIF_DUMP_INLINE"); d != "" {
